@@ -344,8 +344,10 @@ EXTRA_TEXT = {
            'rally-jobs) run with their real std actions under the '
            'differential oracle.',
     'C04': ' First assignment of every join shape also over the '
-           'DefaultScheduler; requires-graphs also with a requirement '
-           'coming from task-defaults.',
+           'DefaultScheduler, and there with overlapping transactions too '
+           '(two refresh jobs of one join overtaking each other between the '
+           'unlocked read and the named lock); requires-graphs also with a '
+           'requirement coming from task-defaults.',
     'C05': ' Value catalogue: null, falsy, container and shape-changing '
            'values, dropped keys.',
     'C06': ' Stateful programs (paused asynchronous action, paused / '
